@@ -568,6 +568,22 @@ impl SignatureConfig {
                     packet.to_writer(&mut hashed_subpackets)?;
                 }
 
+                // An issuer fingerprint in the unhashed area is used to find the issuer as well,
+                // its version has to match the signature version in the same way.
+                for packet in &self.unhashed_subpackets {
+                    if let SubpacketData::IssuerFingerprint(fp) = &packet.data {
+                        match (self.version(), fp.version()) {
+                            (SignatureVersion::V6, Some(KeyVersion::V6)) => {}
+                            (SignatureVersion::V4, Some(KeyVersion::V4)) => {}
+                            _ => bail!(
+                                "IssuerFingerprint {:?} doesn't match signature version {:?}",
+                                fp,
+                                self.version()
+                            ),
+                        }
+                    }
+                }
+
                 // append hashed area length, as u16 for v4, and u32 for v6
                 if self.version() == SignatureVersion::V4 {
                     res.extend(u16::try_from(hashed_subpackets.len())?.to_be_bytes());
